@@ -60,7 +60,7 @@ def predict (kind : String) (spelling : List Char) : Option Out :=
       | .ok _ _ => none
       | .err => errIfNumeric ts
     | "imm" =>
-      match parseImmediateValue ts with
+      match parseCallImmediate ts with
       | .ok z [] => some (.num false z.re z.im)
       | .ok _ _ => none
       | .err => errIfNumeric ts
@@ -106,13 +106,17 @@ def specCheck (kind : String) (sg : Spec.Signed) (std : Option Nat) (out : Out) 
     | some v => n == v && n < QV.Lex.two64
     | none => false
   | .num neg re im =>
-    (kind == "expr" || kind == "imm") && neg == sg.neg && !(kind == "imm" && sg.neg) && !sg.plus &&
+    -- expressions keep the sign as a prefix operator; a CALL immediate carries it in the value
+    -- (`0 - x`: the zero part stays +0.0)
+    (kind == "expr" || kind == "imm") && neg == (sg.neg && kind == "expr") && !sg.plus &&
     let bits : Option Nat := match sg.lit.intValue with
       | some v => if v < QV.Lex.two64 then some (QV.DecF64.ofNat v) else none   -- `u64 as f64`
       | none => realBits
     match bits with
-    | some b => (if sg.imag then re == 0 && im == b else re == b && im == 0) &&
-                (sg.lit.intValue.isSome || stdOk b)
+    | some b =>
+      let b' := if kind == "imm" && sg.neg then zeroMinus b else b
+      (if sg.imag then re == 0 && im == b' else re == b' && im == 0) &&
+      (sg.lit.intValue.isSome || stdOk b)
     | none => false
 
 private def litTags (sg : Spec.Signed) : List String :=
